@@ -3,6 +3,7 @@ import PGV.Driver.C14
 import PGV.Driver.C09
 import PGV.Driver.Walk
 import PGV.Driver.C15
+import PGV.Driver.C20
 
 open PGV PGV.Driver
 
@@ -22,6 +23,7 @@ def dispatch (line : String) : String :=
       | "split" | "parse" | "gen" | "rmset" | "rt" => C14.handle op args impl
       | "lru" => C09.handle op args impl
       | "explain-c" | "explain-raw" => C15.handle op args impl
+      | "dump" => C20.handle op args impl
       | _ => none
     match r with
     | some r => r.render
